@@ -28,7 +28,7 @@ ASSUMPTIONS = ['sift is an opaque pure function of its input in the noise/averag
 REQUIRED_CLASSES = ['two-workers-used', 'flip-mode', 'single-mode']
 EXPECTED_LABELS = ['never-raises', 'members-have-distinct-noise', 'output-is-mean-of-members', 'zero-noise-equals-classic-sift',
                    'complete-ensemble-members-distinct-noise', 'complete-ensemble-first-imf-is-mean']
-BUDGET_S = {'quick': 120, 'thorough': 720}
+BUDGET_S = {'quick': 120, 'thorough': 900}
 OPTS = {'quick': {'sample_every': 3, 'concolic': False}, 'thorough': {'sample_every': 3, 'concolic': False}}
 
 
